@@ -63,6 +63,7 @@ func checkNonceStores(p *an.Prog, r *an.Run) {
 	checkTxnOutcome(p, r, "badger.CheckAndSaveNonce", func(f *ssa.Function) bool { return f.Name() == "CheckAndSaveNonce" })
 	// the nonce record is found again under the identity alone: keys are spelled as prefix + id, in bytes of their own
 	checkKeyOperandTypes(p, r)
+	checkTTLDiscipline(p, r)
 	window, okW := p.PkgConstInt("pool/store", "ExpireNonce")
 	r.Check(okW && window == int64(15*60*1e9), "fresh", "store.ExpireNonce", token.NoPos, "ExpireNonce = 15m", "store.ExpireNonce evaluates to %d ns, the property fixes the freshness window at 15 minutes", window)
 
